@@ -15,6 +15,8 @@ use std::time::Duration;
 pub const THUNK_THR: usize = 10_000;
 /// pseudo client-thread index of dispatches made by middleware hooks of store s: MW_THR + s
 pub const MW_THR: usize = 9_000;
+/// pseudo client-thread index of a stop() of another store made by effect e: XSTOP_THR + e
+pub const XSTOP_THR: usize = 11_000;
 
 #[derive(Clone, Debug, PartialEq, Eq, Hash)]
 pub enum BlockOn {
@@ -352,6 +354,19 @@ fn effect_body(w: &Arc<World>, store: usize, spec: &EffSpec, disp: Option<Box<dy
         }
     }
     drop(disp);
+    if let EffKind::StopOther { store: other } = &spec.kind {
+        let thr = XSTOP_THR + spec.id as usize;
+        w.log(K::Inv { thr, idx: 0, op: OpK::Stop { store: *other } });
+        w.shut_invoked[*other].store(true, std::sync::atomic::Ordering::SeqCst);
+        let res = match w.store(*other) {
+            Some(o) => {
+                o.stop();
+                Res::Unit
+            }
+            None => Res::Skipped,
+        };
+        w.log(K::Ret { thr, idx: 0, res });
+    }
     if spec.panic {
         w.log(K::EffE { eff: spec.id, panicked: true });
         std::panic::resume_unwind(Box::new("scripted effect panic"));
@@ -363,7 +378,7 @@ fn make_effect(w: &Arc<World>, store: usize, spec: EffSpec) -> Effect<Act> {
     let wk = Arc::downgrade(w);
     match spec.kind.clone() {
         EffKind::Action(a) => Effect::Action(Act { id: a }),
-        EffKind::Task => Effect::Task(Box::new(move || {
+        EffKind::Task | EffKind::StopOther { .. } => Effect::Task(Box::new(move || {
             if let Some(w) = wk.upgrade() {
                 effect_body(&w, store, &spec, None);
             }
